@@ -14,7 +14,8 @@ event arrives.
 How the statement is split (models: `SMV/Model/Expr.lean`, `SMV/Model/Lexer.lean`):
 
 * text → text: `replace_operators` and the plain-name fast path (`C08_rewrite_tokens`,
-  `C08_rewrite_chars_partial`, witnesses for the two defects D8/D9 of the code as found);
+  `C08_rewrite_chars_partial`, `C08_rewrite_padded`, witnesses for the three lexical defects
+  D8/D9/D22 of the code as found, `fixed := false`);
 * text → tree: CPython's `ast.parse` — **trusted** (precedence is Python's by construction);
 * tree → closure tree → value: `C08_eval` (the library's closures compute what the language
   reference prescribes for that tree: same value or same failure, same reads in the same order),
@@ -313,30 +314,57 @@ theorem repl_render (ts : List Tok) :
 /-- **C08_rewrite_chars_partial.** The (repaired) regex substitution, as a character scanner,
 applied to any well-spaced rendering of a token list — optional blanks anywhere, none needed around
 `>=`, `^`, `!`, parentheses or string literals — writes the same rendering with exactly the three
-alternate spellings replaced (`!` ↦ `not␣`, `^` ↦ `␣and␣`, `v` ↦ `␣or␣`) and every other token
-and every separator — names containing `v`, `!=`, string literals containing `v ! ^` — unchanged.
+alternate spellings replaced by blank-padded keywords (`!` ↦ `␣not␣`, `^` ↦ `␣and␣`, `v` ↦ `␣or␣`)
+and every other token and every separator — names containing `v`, `!=`, string literals containing
+`v ! ^` — unchanged; then strips the ends (a leading blank would be an `IndentationError`).
 
 Full statement aimed at (not proved; `lex` = CPython's tokenizer, which is not modelled):
 `lex (replaceOperators (render tokText ts seps)) = rewriteToks ts` for every rendering the
-tokenizer accepts. Proved here: the text-to-text half. Missing: the tokenizer itself (that the
-padded keywords in the output are lexed as `not/and/or` and everything else as before), non-ASCII
-identifiers, string prefixes / triple quotes / line continuations. That half is exercised by the
-correspondence check (CPython parses the rewritten text of every generated expression). -/
+tokenizer accepts. Proved here: the text-to-text half, and (`C08_rewrite_padded`) that every
+inserted keyword carries a blank on both sides, so it cannot fuse with a neighbour. Missing: the
+tokenizer itself (that the output is lexed as `rewriteToks ts`), non-ASCII identifiers, string
+prefixes / triple quotes / line continuations. That half is exercised by the correspondence check
+(CPython parses the rewritten text of every generated expression and must build the tree of the
+canonical text). -/
 theorem C08_rewrite_chars_partial (ts : List Tok) (seps : List (List Char))
     (h : wellSpaced ts seps = true) :
-    replaceOperators true (render tokText ts seps) = render tokTextR ts seps := by
+    replaceOperators true (render tokText ts seps) = strip (render tokTextR ts seps) := by
+  simp only [replaceOperators, if_true]
+  congr 1
   apply repl_render ts seps false h
   intro _ _ _; rfl
 
-/-- non-vacuity: `!vx>=1^(s=='v' v nota)!=v1` -/
+/-- **C08_rewrite_padded.** What is written for an alternate spelling starts and ends with a blank;
+every other token is written as it was. -/
+theorem C08_rewrite_padded (t : Tok) :
+    (isAlt t = true → (tokTextR t).head? = some ' ' ∧ (tokTextR t).getLast? = some ' ') ∧
+    (isAlt t = false → tokTextR t = tokText t) := by
+  cases t with
+  | ident s =>
+    by_cases hs : s = "v"
+    · subst hs; exact ⟨fun _ => by decide, fun h => by simp [isAlt] at h⟩
+    · exact ⟨fun h => by simp [isAlt, hs] at h, fun _ => by simp [tokTextR, tokText, hs]⟩
+  | bang => exact ⟨fun _ => by decide, fun h => by simp [isAlt] at h⟩
+  | caret => exact ⟨fun _ => by decide, fun h => by simp [isAlt] at h⟩
+  | _ => exact ⟨fun h => by simp [isAlt] at h, fun _ => rfl⟩
+
+/-- non-vacuity: `!vx>=1^(s=='v' v nota)!=v1 and!w` -/
 example :
     let ts : List Tok := [.bang, .ident "vx", .cmp .ge, .num "1", .caret, .lpar, .ident "s", .cmp .eq,
-      .strLit "'v'", .ident "v", .ident "nota", .rpar, .cmp .ne, .ident "v1"]
-    let seps : List (List Char) := [[], [], [], [], [], [], [], [], [' '], [' '], [], [], []]
+      .strLit "'v'", .ident "v", .ident "nota", .rpar, .cmp .ne, .ident "v1", .kwAnd, .bang, .ident "w"]
+    let seps : List (List Char) := [[], [], [], [], [], [], [], [], [' '], [' '], [], [], [], [' '], [], []]
     wellSpaced ts seps = true ∧
-    String.ofList (render tokText ts seps) = "!vx>=1^(s=='v' v nota)!=v1" ∧
-    String.ofList (replaceOperators true (render tokText ts seps)) = "not vx>=1 and (s=='v'  or  nota)!=v1" := by
+    String.ofList (render tokText ts seps) = "!vx>=1^(s=='v' v nota)!=v1 and!w" ∧
+    String.ofList (replaceOperators true (render tokText ts seps)) =
+      "not vx>=1 and (s=='v'  or  nota)!=v1 and not w" := by
   decide
+
+/-- **D22 as found** (`fixed := false`): `!` glued to a preceding keyword is rewritten to a text
+that no longer separates the two words (`x andnot y`, a syntax error); repaired: `x and not y`. -/
+theorem C08_D22_asis_counterexample :
+    String.ofList (replaceOperators false "x and!y".toList) = "x andnot y" ∧
+    String.ofList (replaceOperators true "x and!y".toList) = "x and not y" ∧
+    String.ofList (replaceOperators true "!x".toList) = "not x" := by decide
 
 /-- **D9 as found** (`fixed := false`): the text inside a string literal is rewritten, so
 `x == 'v'` compares `x` with `' or '`; repaired: untouched. -/
